@@ -1,12 +1,19 @@
 import DdoModel.Proto
 import DdoModel.Engines.Store
 import DdoModel.Examples.KnapsackDp
-/-! Driver engine `exmodel` (C16, knapsack): every observation the harness made on the example's own `Problem`,
+import DdoModel.Examples.MispDp
+import DdoModel.Engines.ExModelM2s
+/-! Driver engine `exmodel` (C16, knapsack and misp): every observation the harness made on the example's own `Problem`,
     `Relaxation` and `StateRanking` implementations (compiled into the harness from the example's source file) is
     recomputed with the Lean model `KnapsackDp.lean` — the model the well-formedness theorems of `KnapsackModel.lean`
     are about.  `phi` = the hypotheses of `knapsack_relaxed_ub` hold for the instance and the variable order the code
     chose (`order` is a permutation of the items, sorted by non-increasing exact ratio), for instances with positive
-    weights and non-negative profits. -/
+    weights and non-negative profits.
+
+    misp (`MispDp.lean`, theorems in `MispModel.lean`): same scheme; the events also cover what the example's
+    `read_instance` built (weights, complemented adjacency), the dynamic `next_variable` (asked for whole layers),
+    `is_impacted_by`, merges; `phi` = the hypotheses of `misp_relaxed_ub` on the instance (one weight per vertex,
+    `(n + 2) · max |w| ≤ 2^62`; nothing about the edges). -/
 namespace Ddo.Engines
 open Ddo Ddo.Proto Ddo.Examples Ddo.Examples.KnapsackModel
 
@@ -63,6 +70,104 @@ private def checkEvent (I : Inst) (e : List String) : Option (Bool × String) :=
     | _ => none
   | _ => none
 
+
+/-! ### misp -/
+
+/-- a state: its members in increasing order, `-` for the empty set -/
+private def set? (ts : List String) : Option (List Nat) :=
+  if ts == ["-"] then some [] else if ts.isEmpty then none else nats? ts
+
+/-- states separated by `,`; no token at all = no state -/
+private def sets? (ts : List String) : Option (List (List Nat)) :=
+  if ts.isEmpty then some [] else (splitAt "," ts).mapM set?
+
+private def showSet (s : List Nat) : String := if s.isEmpty then "-" else join (s.map toString)
+private def showSets (l : List (List Nat)) : String := " , ".intercalate (l.map showSet)
+private def showVar (o : Option Nat) : String := match o with | some v => toString v | none => "n"
+
+/-- checks one event of the misp example; `none` = unreadable, `some (ok, what the model says)` -/
+private def checkMisp (I : MispModel.Inst) (e : List String) : Option (Bool × String) :=
+  let P := MispModel.problem I
+  let R := MispModel.relaxation I
+  match splitAt ":" e with
+  | [["nv", n]] => some (n == toString P.nbVars, toString P.nbVars)
+  | [("inst" :: ws), nbs] => do
+    -- what `read_instance` built: the weights, and for every vertex the complement of its adjacency list
+    let nbs ← sets? nbs
+    let want := (List.range I.n).map (MispModel.Inst.nonNeighbors I)
+    pure (ws == I.weight.map toString && nbs == want, s!"{join (I.weight.map toString)} : {showSets want}")
+  | [("init" :: s), [v]] => do
+    let s ← set? s
+    pure (s == P.init && v == toString P.initVal, s!"{showSet P.init} : {P.initVal}")
+  | [("rub" :: s), [r]] => do
+    let s ← set? s
+    pure (r == toString (R.rub s), toString (R.rub s))
+  | [["next", d], L, [x]] => do
+    let d ← nat? d; let L ← sets? L
+    let m := showVar (P.nextVar d L)
+    pure (x == m, m)
+  | [("imp" :: s), [x], [b]] => do
+    let s ← set? s; let x ← nat? x
+    pure (b == b2s (P.impacted x s), b2s (P.impacted x s))
+  | [("dom" :: s), [x], vals] => do
+    let s ← set? s; let x ← nat? x
+    let m := (P.domain x s).map toString
+    pure (vals == m, join m)
+  | [("tr" :: s), [x, v], s2, [c]] => do
+    let s ← set? s; let x ← nat? x; let v ← int? v; let s2 ← set? s2
+    let m := P.trans s ⟨x, v⟩
+    let k := P.cost s m ⟨x, v⟩
+    pure (s2 == m && c == toString k, s!"{showSet m} : {k}")
+  | [("mg" :: X), m] => do
+    let X ← sets? X; let m ← set? m
+    pure (m == R.merge X, showSet (R.merge X))
+  | [["rx", c], [r]] => do
+    let c ← int? c
+    let m := R.relax [] [] [] ⟨0, 1⟩ c
+    pure (r == toString m, toString m)
+  | [("rk" :: ab), [o]] =>
+    match splitAt "," ab with
+    | [a, b] => do
+      let a ← set? a; let b ← set? b
+      let m := match MispModel.rankCmp a b with | .lt => "lt" | .eq => "eq" | .gt => "gt"
+      pure (o == m, m)
+    | _ => none
+  | _ => none
+
+/-- case: `misp | n m w_1 … w_n (u v)*m | width seed style` (vertices 1-based, as in the instance file) -/
+private def mispCase (toks : List String) (i : List String) : Option Res := do
+  let t ← ints? toks
+  match t with
+  | n :: m :: rest =>
+    let n := n.toNat
+    let m := m.toNat
+    if rest.length ≠ n + 2 * m then none else
+    let weight := rest.take n
+    let ends := (rest.drop n).map Int.toNat
+    if ends.any (fun u => u = 0 ∨ n < u) then none else
+    let rec pairs : List Nat → List (Nat × Nat)
+      | u :: v :: r => (u - 1, v - 1) :: pairs r
+      | _ => []
+    let edges := pairs ends
+    let I : MispModel.Inst := { n := n, weight := weight, edges := edges }
+    if i == ["panic"] ∨ i == ["unreadable"] then
+      pure { agree := false, phi := false, model := "-", note := s!"F:C16 [C16:misp model functions: {join i}]" }
+    else
+    let evs := (splitAt ";" i).filter (· ≠ [])
+    let mut bad : List String := []
+    for e in evs do
+      match checkMisp I e with
+      | none => bad := bad ++ [s!"unreadable event `{join e}`"]
+      | some (true, _) => pure ()
+      | some (false, mm) => bad := bad ++ [s!"`{join e}`: the model says {mm}"]
+    -- hypotheses of `misp_relaxed_ub` that concern the instance (`B` = the largest absolute weight)
+    let B := weight.foldl (fun b q => max b (max q (-q))) 0
+    let phi := weight.length == n && decide (((n : Int) + 2) * B ≤ 4611686018427387904)
+    pure { agree := bad.isEmpty, phi := phi, model := s!"events {evs.length}",
+           note := (if phi then "" else "F:C16 [C16:misp: ill-formed instance]")
+                   ++ (if bad.isEmpty then "" else " D:exmodel " ++ (bad.head?.getD "")) }
+  | _ => none
+
 /-- case: `knapsack | n cap p… w… | walks seed` ; impl: events separated by `;` -/
 def exmodelEngine (c i : List String) : Option Res := do
   match splitAt "|" c with
@@ -98,6 +203,8 @@ def exmodelEngine (c i : List String) : Option Res := do
              note := (if phi then "" else s!"F:C16 [C16:knapsack: the variable order {order} chosen by Knapsack::new is not a permutation sorted by non-increasing profit/weight ratio: the Dantzig bound is not admissible]")
                      ++ (if bad.isEmpty then "" else " D:exmodel " ++ (bad.head?.getD "")) }
     | _ => none
+  | [["misp"], toks, _] => mispCase toks i
+  | [["max2sat"], toks, _] => max2satCase toks i
   | _ => none
 
 end Ddo.Engines
